@@ -123,6 +123,7 @@ class Exec:
                 self.loop_ord[id(node)] = n
         self.assumptions = set()
         self._obn = {}
+        self._dedupe = set()
         self.is_generator = any(isinstance(n, (ast.Yield, ast.YieldFrom)) for n in ast.walk(fsrc.node))
 
     # ----------------------------------------------------------- obligations
@@ -136,7 +137,22 @@ class Exec:
         k = self._obn.get(base, 0) + 1
         self._obn[base] = k
         name = base if k == 1 else '%s#%d' % (base, k)
-        self.obls.append(Obligation(name, list(st.pc) + list(extra_hyps), tobool(goal), kind, line))
+        hyps = list(st.pc) + list(extra_hyps)
+        g = tobool(goal)
+        key = (tuple(h.get_id() for h in hyps), g.get_id())
+        if key in self._dedupe:
+            self._obn[base] = k - 1
+            return
+        self._dedupe.add(key)
+        ob = Obligation(name, hyps, g, kind, line)
+        ob.info['key'] = key
+        self.obls.append(ob)
+
+    def rollback(self, nobl, nkeys):
+        for ob in self.obls[nobl:]:
+            self._dedupe.discard(ob.info.get('key'))
+        del self.obls[nobl:]
+        self._obn = nkeys
 
     def with_sink(self, st, node, fn):
         """Run fn() with arithmetic side conditions turned into obligations."""
@@ -481,7 +497,10 @@ class Exec:
                 self.oblige(st, False, 'no-IndexError', node)
                 return 0
             return j
-        j = ite(i < 0, i + n, i)
+        neg = i < 0
+        with V.guarded(neg):
+            wrapped = i + n
+        j = ite(neg, wrapped, i)
         self.oblige(st, AND(j >= 0, j < n), 'no-IndexError', node)
         return j
 
@@ -566,8 +585,7 @@ class Exec:
         try:
             return m(s, work)
         except NeedFork as nf:
-            del self.obls[nobl:]
-            self._obn = nkeys
+            self.rollback(nobl, nkeys)
             outs = []
             for cond in (nf.cond, z3.Not(nf.cond)):
                 s2 = st.copy()
@@ -722,8 +740,7 @@ class Exec:
         try:
             c = self.truth(self.ev(s.test, work), work)
         except NeedFork as nf:
-            del self.obls[nobl:]
-            self._obn = nkeys
+            self.rollback(nobl, nkeys)
             outs = []
             for cond in (nf.cond, z3.Not(nf.cond)):
                 s2 = st.copy()
